@@ -21,7 +21,6 @@ list of those places (`sites`) has to cover `Generated.ShapesClient.derefs`.
 import SigModel.Generated.ShapesClient
 
 namespace SigModel.ShapesClient
-open SigModel.Generated.ShapesClient
 
 /-! ## The decoded message -/
 
@@ -181,7 +180,39 @@ structure Frame where
   dec : Decoded
   deriving DecidableEq, Repr
 
+/-! ## The regenerated facts the model is defined over -/
+
+/-- Everything the model takes from the Go sources.  `Facts.current` is what the
+extractor found in the working tree; the theorems of `Props/C10.lean` are about
+`Facts.current`, the counter-examples there about variations of it. -/
+structure Facts where
+  validation : List (String × String × String × String)
+  derefs : List (String × String × String)
+  dispatchTable : List (String × String)
+  localTypes : List String
+  maxMessageSize : Nat
+  readLimitIsMaxMessageSize : Bool
+  binaryFrameAnsweredInvalidFormat : Bool
+  validateBeforeDispatch : Bool
+  preHelloOnlyHello : Bool
+  messageCounterLabelFromFixedSet : Bool
+
+def Facts.current : Facts :=
+  { validation := Generated.ShapesClient.validation,
+    derefs := Generated.ShapesClient.derefs,
+    dispatchTable := Generated.ShapesClient.dispatchTable,
+    localTypes := Generated.ShapesClient.localTypes,
+    maxMessageSize := Generated.ShapesClient.maxMessageSize,
+    readLimitIsMaxMessageSize := Generated.ShapesClient.readLimitIsMaxMessageSize,
+    binaryFrameAnsweredInvalidFormat := Generated.ShapesClient.binaryFrameAnsweredInvalidFormat,
+    validateBeforeDispatch := Generated.ShapesClient.validateBeforeDispatch && Generated.ShapesClient.decodeBeforeUse,
+    preHelloOnlyHello := Generated.ShapesClient.preHelloOnlyHello,
+    messageCounterLabelFromFixedSet := Generated.ShapesClient.messageCounterLabelFromFixedSet }
+
 /-! ## Validation (`CheckValid`), defined over the regenerated table -/
+
+section model
+variable (F : Facts)
 
 inductive V where
   | ok
@@ -194,7 +225,7 @@ def V.andThen : V → V → V
   | v, _ => v
 
 def tbl (recv tag field kind : String) : Bool :=
-  validation.contains (recv, tag, field, kind)
+  F.validation.contains (recv, tag, field, kind)
 
 def invalid : V := .err "invalid_format"
 
@@ -202,10 +233,10 @@ def invalid : V := .err "invalid_format"
 def checkField {α : Type} (recv tag field : String) (x : Option α) (sub : α → V) : V :=
   match x with
   | none =>
-    if tbl recv tag field "nil" then invalid
-    else if tbl recv tag field "sub" then .crash (recv ++ ".CheckValid: " ++ field ++ " is nil")
+    if tbl F recv tag field "nil" then invalid
+    else if tbl F recv tag field "sub" then .crash (recv ++ ".CheckValid: " ++ field ++ " is nil")
     else .ok
-  | some a => if tbl recv tag field "sub" then sub a else .ok
+  | some a => if tbl F recv tag field "sub" then sub a else .ok
 
 def effType (a : Auth) : String := if a.atype = "" then "client" else a.atype
 
@@ -216,7 +247,7 @@ def checkHello (h : Hello) : V :=
   | .empty =>
     match h.auth with
     | none =>
-      if tbl "HelloClientMessage" "ResumeId=" "Auth" "nil" then invalid
+      if tbl F "HelloClientMessage" "ResumeId=" "Auth" "nil" then invalid
       else .crash "HelloClientMessage.CheckValid: Auth is nil"
     | some a =>
       if !a.paramsNonEmpty then invalid
@@ -243,7 +274,7 @@ def checkRoom (r : RoomMsg) : V :=
   match r.federation with
   | none => .ok
   | some f =>
-    if tbl "RoomClientMessage" "*" "Federation" "optsub" then checkFederation f else .ok
+    if tbl F "RoomClientMessage" "*" "Federation" "optsub" then checkFederation f else .ok
 
 def checkMessageMsg (m : MessageMsg) : V :=
   if !m.dataNonEmpty then invalid
@@ -253,45 +284,45 @@ def checkMessageMsg (m : MessageMsg) : V :=
   else invalid
 
 def checkControl (m : MessageMsg) : V :=
-  if tbl "ControlClientMessage" "*" "MessageClientMessage" "sub" then checkMessageMsg m else .ok
+  if tbl F "ControlClientMessage" "*" "MessageClientMessage" "sub" then checkMessageMsg m else .ok
 
 def checkCommon (c : Common) : V :=
   if c.sid = "" then invalid else if c.room = .empty then invalid else .ok
 
 def checkAdd (a : AddSession) : V :=
-  if tbl "AddSessionInternalClientMessage" "*" "CommonSessionInternalClientMessage" "sub" then checkCommon a.c else .ok
+  if tbl F "AddSessionInternalClientMessage" "*" "CommonSessionInternalClientMessage" "sub" then checkCommon a.c else .ok
 
 def checkUpd (a : UpdateSession) : V :=
-  if tbl "UpdateSessionInternalClientMessage" "*" "CommonSessionInternalClientMessage" "sub" then checkCommon a.c else .ok
+  if tbl F "UpdateSessionInternalClientMessage" "*" "CommonSessionInternalClientMessage" "sub" then checkCommon a.c else .ok
 
 def checkRem (c : Common) : V :=
-  if tbl "RemoveSessionInternalClientMessage" "*" "CommonSessionInternalClientMessage" "sub" then checkCommon c else .ok
+  if tbl F "RemoveSessionInternalClientMessage" "*" "CommonSessionInternalClientMessage" "sub" then checkCommon c else .ok
 
 def checkDialout (d : Dialout) : V :=
-  if tbl "DialoutInternalClientMessage" d.dtype "" "reject" then invalid else
-  (checkField "DialoutInternalClientMessage" d.dtype "Error" d.error (fun _ => .ok)).andThen
-  (checkField "DialoutInternalClientMessage" d.dtype "Status" d.status (fun _ => .ok))
+  if tbl F "DialoutInternalClientMessage" d.dtype "" "reject" then invalid else
+  (checkField F "DialoutInternalClientMessage" d.dtype "Error" d.error (fun _ => .ok)).andThen
+  (checkField F "DialoutInternalClientMessage" d.dtype "Status" d.status (fun _ => .ok))
 
 def checkInternal (i : Internal) : V :=
-  if tbl "InternalClientMessage" i.itype "" "reject" then invalid else
-  (checkField "InternalClientMessage" i.itype "AddSession" i.add checkAdd).andThen <|
-  (checkField "InternalClientMessage" i.itype "UpdateSession" i.upd checkUpd).andThen <|
-  (checkField "InternalClientMessage" i.itype "RemoveSession" i.rem checkRem).andThen <|
-  (checkField "InternalClientMessage" i.itype "InCall" i.incall (fun _ => .ok)).andThen <|
-  (checkField "InternalClientMessage" i.itype "Dialout" i.dialout checkDialout)
+  if tbl F "InternalClientMessage" i.itype "" "reject" then invalid else
+  (checkField F "InternalClientMessage" i.itype "AddSession" i.add (checkAdd F)).andThen <|
+  (checkField F "InternalClientMessage" i.itype "UpdateSession" i.upd (checkUpd F)).andThen <|
+  (checkField F "InternalClientMessage" i.itype "RemoveSession" i.rem (checkRem F)).andThen <|
+  (checkField F "InternalClientMessage" i.itype "InCall" i.incall (fun _ => .ok)).andThen <|
+  (checkField F "InternalClientMessage" i.itype "Dialout" i.dialout (checkDialout F))
 
 def checkTransient (t : Transient) : V :=
   if (t.ttype = "set" ∨ t.ttype = "remove") ∧ t.key = "" then invalid else .ok
 
 /-- `(*ClientMessage).CheckValid`. -/
 def checkValid (m : ClientMessage) : V :=
-  if tbl "ClientMessage" m.mtype "" "reject" then invalid else
-  (checkField "ClientMessage" m.mtype "Hello" m.hello checkHello).andThen <|
-  (checkField "ClientMessage" m.mtype "Room" m.room checkRoom).andThen <|
-  (checkField "ClientMessage" m.mtype "Message" m.message checkMessageMsg).andThen <|
-  (checkField "ClientMessage" m.mtype "Control" m.control checkControl).andThen <|
-  (checkField "ClientMessage" m.mtype "Internal" m.internal checkInternal).andThen <|
-  (checkField "ClientMessage" m.mtype "TransientData" m.transient checkTransient)
+  if tbl F "ClientMessage" m.mtype "" "reject" then invalid else
+  (checkField F "ClientMessage" m.mtype "Hello" m.hello (checkHello F)).andThen <|
+  (checkField F "ClientMessage" m.mtype "Room" m.room (checkRoom F)).andThen <|
+  (checkField F "ClientMessage" m.mtype "Message" m.message checkMessageMsg).andThen <|
+  (checkField F "ClientMessage" m.mtype "Control" m.control (checkControl F)).andThen <|
+  (checkField F "ClientMessage" m.mtype "Internal" m.internal (checkInternal F)).andThen <|
+  (checkField F "ClientMessage" m.mtype "TransientData" m.transient checkTransient)
 
 /-! ## State -/
 
@@ -403,7 +434,7 @@ def modelHello (m : ClientMessage) : Outcome :=
       match h.auth with
       | none => .crash "processHello: message.Hello.Auth"
       | some a =>
-        let t := if validateBeforeDispatch then effType a else a.atype
+        let t := if F.validateBeforeDispatch then effType a else a.atype
         let register (internal : Bool) (u : UserClass) : Outcome :=
           let s' : Sess :=
             { internal := internal, dialoutFeat := internal && h.featDialout, restrictedUser := decide (u = .restricted), restricted := false,
@@ -483,7 +514,9 @@ def route (kind : String) (rc : Recipient) (hasVirt : Bool) : Obs :=
 
 def withAmbient (o : Obs) : Obs := if s.room = .none then o else { o with sMay := o.sMay ++ ambient }
 
-def mcuObs : Obs := { sMay := mcuReplies ++ ambient, bMay := ["message"], st := .any }
+/-- Media-server work: the reply comes from an external party (and from goroutines of its own). -/
+def mcuObs (rc : Recipient) : Obs :=
+  { sMay := mcuReplies ++ ambient, bMay := if rc.rtype = "session" ∧ rc.sid = .by then ["message"] else [], st := .any }
 
 /-- `MessageClientMessageData.CheckValid` on the payload. -/
 def checkData (d : DataShape) : V :=
@@ -509,8 +542,8 @@ def modelMessage (m : ClientMessage) : Outcome :=
       | .err c => .ok (withAmbient s (errObs c)) st
       | .crash site => .crash site
       | .ok =>
-        if rc.rtype = "session" ∧ mcuTypes.contains mm.data.dtype then .ok mcuObs st
-        else if mm.data.dtype = "sendoffer" then .ok mcuObs st
+        if rc.rtype = "session" ∧ mcuTypes.contains mm.data.dtype then .ok (mcuObs rc) st
+        else if mm.data.dtype = "sendoffer" then .ok (mcuObs rc) st
         else .ok (withAmbient s (route s "message" rc hasVirt)) st
     else .ok (withAmbient s (route s "message" rc hasVirt)) st
 
@@ -526,7 +559,7 @@ def modelControl (m : ClientMessage) : Outcome :=
 extracted dereference table says whether it still touches
 `message.Internal.Dialout` without looking at the type first. -/
 def dialoutHandlerGuarded : Bool :=
-  !derefs.any (fun d => d.1 = "BackendServer.startDialout.func1")
+  !F.derefs.any (fun d => d.1 = "BackendServer.startDialout.func1")
 
 inductive Handled where
   | crash (site : String)
@@ -543,7 +576,7 @@ def dialoutHandler (i : Internal) : Handled :=
         | some v => if v = "accepted" then "200" else "502"
       else "502"
     .consumed d.error.isSome http
-  if dialoutHandlerGuarded then
+  if dialoutHandlerGuarded F then
     (if i.itype = "dialout" then
       match i.dialout with
       | none => .notConsumed
@@ -615,7 +648,7 @@ def modelInternal (m : ClientMessage) : Outcome :=
     else
       let armed := st.dialoutState && s.dialoutFeat
       if armed ∧ m.id = .pending then
-        match dialoutHandler i with
+        match dialoutHandler F i with
         | .crash site => .crash site
         | .notConsumed => internalSwitch st s i (some "1")
         | .consumed stop http =>
@@ -671,17 +704,17 @@ def modelProxy (m : ClientMessage) : Outcome :=
 end handlers
 
 def handlerFor (t : String) : String :=
-  match dispatchTable.lookup t with
+  match F.dispatchTable.lookup t with
   | some h => h
-  | none => (dispatchTable.lookup "*").getD ""
+  | none => (F.dispatchTable.lookup "*").getD ""
 
 /-- The `switch message.Type` of `Hub.processMessage`, through the regenerated dispatch table. -/
 def dispatchSession (st : St) (s : Sess) (m : ClientMessage) : Outcome :=
-  let h := handlerFor m.mtype
+  let h := handlerFor F m.mtype
   if h = "processRoom" then modelRoom st s m
   else if h = "processMessageMsg" then modelMessage st s m
   else if h = "processControlMsg" then modelControl st s m
-  else if h = "processInternalMsg" then modelInternal st s m
+  else if h = "processInternalMsg" then modelInternal F st s m
   else if h = "processTransientMsg" then modelTransient st s m
   else if h = "processByeMsg" then modelBye st s m
   else if h = "" then .ok { sMay := if s.room = .none then [] else ambient } st
@@ -689,7 +722,7 @@ def dispatchSession (st : St) (s : Sess) (m : ClientMessage) : Outcome :=
 
 /-- `Hub.processMessage` after decoding. -/
 def processMessage (st : St) (m : ClientMessage) : Outcome :=
-  let validated : V := if validateBeforeDispatch then checkValid m else .ok
+  let validated : V := if F.validateBeforeDispatch then checkValid F m else .ok
   match validated with
   | .crash site => .crash site
   | .err c =>
@@ -698,17 +731,17 @@ def processMessage (st : St) (m : ClientMessage) : Outcome :=
       | _ => []
     .ok { errObs c with sMay := amb } st
   | .ok =>
-    if !messageCounterLabelFromFixedSet ∧ !m.typeUtf8 then
+    if !F.messageCounterLabelFromFixedSet ∧ !m.typeUtf8 then
       .crash "processMessage: statsMessagesTotal.WithLabelValues(message.Type) with a type that is not valid UTF-8"
     else
     match st.conn with
     | .dead => .ok {} st
     | .nosession =>
-      if preHelloOnlyHello ∧ m.mtype ≠ "hello" then .ok (errObs "hello_expected") st
-      else modelHello st m
+      if F.preHelloOnlyHello ∧ m.mtype ≠ "hello" then .ok (errObs "hello_expected") st
+      else modelHello F st m
     | .session s =>
-      if s.fed ∧ !localTypes.contains m.mtype then modelProxy st m
-      else dispatchSession st s m
+      if s.fed ∧ !F.localTypes.contains m.mtype then modelProxy st m
+      else dispatchSession F st s m
 
 /-- Was a dialout request pending (armed by the harness) while this frame was processed? -/
 def armed (st : St) : Bool :=
@@ -734,18 +767,20 @@ def processFrame (st : St) (f : Frame) : Outcome :=
   | .dead => .ok {} st
   | conn =>
     withHttp st <|
-    if readLimitIsMaxMessageSize ∧ f.size > maxMessageSize then
+    if F.readLimitIsMaxMessageSize ∧ f.size > F.maxMessageSize then
       .ok { sMust := ["closed"], st := .chg } { st with conn := .dead }
     else
       let amb := match conn with
         | .session s => if s.room = .none then [] else ambient
         | _ => []
-      if f.binary ∧ binaryFrameAnsweredInvalidFormat then
+      if f.binary ∧ F.binaryFrameAnsweredInvalidFormat then
         .ok { errObs "invalid_format" with sMay := amb } st
       else
         match f.dec with
         | .err => .ok { errObs "invalid_format" with sMay := amb } st
-        | .ok m => processMessage st m
+        | .ok m => processMessage F st m
+
+end model
 
 /-! ## The dereference sites the model accounts for
 
